@@ -15,11 +15,15 @@ require (
 	github.com/sasha-s/go-deadlock v0.3.5
 	github.com/shopspring/decimal v1.4.0
 	github.com/wealdtech/go-eth2-types/v2 v2.8.2
+	github.com/wealdtech/go-eth2-wallet-encryptor-keystorev4 v1.4.1
+	github.com/wealdtech/go-eth2-wallet-nd/v2 v2.5.0
+	github.com/wealdtech/go-eth2-wallet-store-filesystem v1.18.1
 	github.com/wealdtech/go-eth2-wallet-types/v2 v2.12.0
 	github.com/wealdtech/go-majordomo v1.1.1
 )
 
 require (
+	github.com/aws/aws-sdk-go v1.55.5 // indirect
 	github.com/beorn7/perks v1.0.1 // indirect
 	github.com/cespare/xxhash/v2 v2.3.0 // indirect
 	github.com/emicklei/dot v1.6.2 // indirect
@@ -40,6 +44,7 @@ require (
 	github.com/herumi/bls-eth-go-binary v1.36.1 // indirect
 	github.com/huandu/go-clone v1.7.2 // indirect
 	github.com/jackc/puddle/v2 v2.2.2 // indirect
+	github.com/jmespath/go-jmespath v0.4.0 // indirect
 	github.com/klauspost/cpuid/v2 v2.2.9 // indirect
 	github.com/leodido/go-urn v1.4.0 // indirect
 	github.com/magiconair/properties v1.8.7 // indirect
@@ -56,6 +61,7 @@ require (
 	github.com/prometheus/common v0.60.1 // indirect
 	github.com/prometheus/procfs v0.15.1 // indirect
 	github.com/sagikazarmark/slog-shim v0.1.0 // indirect
+	github.com/shibukawa/configdir v0.0.0-20170330084843-e180dbdc8da0 // indirect
 	github.com/spf13/afero v1.11.0 // indirect
 	github.com/spf13/cast v1.7.0 // indirect
 	github.com/spf13/pflag v1.0.5 // indirect
@@ -63,7 +69,17 @@ require (
 	github.com/subosito/gotenv v1.6.0 // indirect
 	github.com/ugorji/go/codec v1.2.12 // indirect
 	github.com/wealdtech/eth2-signer-api v1.7.2 // indirect
+	github.com/wealdtech/go-bytesutil v1.2.1 // indirect
+	github.com/wealdtech/go-ecodec v1.1.4 // indirect
+	github.com/wealdtech/go-eth2-util v1.8.2 // indirect
+	github.com/wealdtech/go-eth2-wallet v1.17.0 // indirect
 	github.com/wealdtech/go-eth2-wallet-dirk v1.5.1 // indirect
+	github.com/wealdtech/go-eth2-wallet-distributed v1.2.1 // indirect
+	github.com/wealdtech/go-eth2-wallet-hd/v2 v2.7.0 // indirect
+	github.com/wealdtech/go-eth2-wallet-keystore v1.0.0 // indirect
+	github.com/wealdtech/go-eth2-wallet-store-s3 v1.12.0 // indirect
+	github.com/wealdtech/go-eth2-wallet-store-scratch v1.7.2 // indirect
+	github.com/wealdtech/go-indexer v1.1.0 // indirect
 	go.opentelemetry.io/contrib/instrumentation/google.golang.org/grpc/otelgrpc v0.57.0 // indirect
 	go.opentelemetry.io/otel v1.32.0 // indirect
 	go.opentelemetry.io/otel/metric v1.32.0 // indirect
